@@ -68,6 +68,9 @@ func (p *Program) verifyFunc(name string, c *FuncContract) *FuncResult {
 			res.Fatal = append(res.Fatal, fmt.Sprintf("generator panic in %s: %v", name, r))
 		}
 	}()
+	vc.declare("alloc0", SInt)
+	st.allocTop = Term{"alloc0", SInt}
+	st.assume("(>= alloc0 0)")
 	// parameters
 	for _, prm := range fn.Params {
 		s := vc.sorts.SortOf(prm.Type())
@@ -115,6 +118,15 @@ func (p *Program) verifyFunc(name string, c *FuncContract) *FuncResult {
 		}
 		st.assume(f)
 	}
+	for _, r := range c.Assumes {
+		f := env.Bool(r.Expr)
+		if len(env.errs) > 0 {
+			vc.fatalf("%s assumes %q: %s", name, r.Text, strings.Join(env.errs, "; "))
+			break
+		}
+		st.assume(f)
+		vc.usedExt["assumed precondition of "+name+" (not checked at call sites): "+r.Text] = true
+	}
 	vc.entry = st.clone()
 	fr.oldState = vc.entry
 	res.CoverPC = append([]string{}, st.pc...)
@@ -145,6 +157,8 @@ func (p *Program) verifyFunc(name string, c *FuncContract) *FuncResult {
 				res = Val{K: VTuple, Tup: rets}
 			}
 			ex.bindResults(post, fn.Signature, fn, res)
+			vc.groupCtr++
+			basePC := len(st2.pc)
 			for _, e := range c.Ensures {
 				post.errs = nil
 				post.ground = true
@@ -154,7 +168,23 @@ func (p *Program) verifyFunc(name string, c *FuncContract) *FuncResult {
 					vc.fatalf("%s ensures %q: %s", name, e.Text, strings.Join(post.errs, "; "))
 					return
 				}
+				n0 := len(vc.obligations)
 				ex.obligationFull(fr, st2, "ensures", e.Text, g, false, fmt.Sprint(e.Ordinal), post.ground)
+				if len(vc.obligations) > n0 {
+					o := vc.obligations[len(vc.obligations)-1]
+					o.Group = vc.groupCtr
+					// every clause of the group is proved from the path condition at the return,
+					// not from the clauses before it
+					if len(o.Assumes) > basePC {
+						kept := append([]string{}, o.Assumes[:basePC]...)
+						for _, a := range o.Assumes[basePC:] {
+							if strings.HasPrefix(a, "(qt_") {
+								kept = append(kept, a)
+							}
+						}
+						o.Assumes = kept
+					}
+				}
 			}
 			if c.HasMod {
 				ex.frameObligations(fr, st2, c, post)
@@ -207,7 +237,12 @@ func (ex *Exec) frameObligations(fr *Frame, st *State, c *FuncContract, env *Env
 		if cur.S == old.S {
 			continue
 		}
-		ex.obligationFull(fr, st, "frame", "unchanged: "+h, app("=", cur.S, old.S), false, h, true)
+		goal := app("=", cur.S, old.S)
+		if strings.HasPrefix(h, "H_") || strings.HasPrefix(h, "HP_") {
+			// objects allocated by this call are not part of the caller's frame
+			goal = fmt.Sprintf("(forall ((r!f Int)) (=> (<= r!f alloc0) (= (select %s r!f) (select %s r!f))))", cur.S, old.S)
+		}
+		ex.obligationFull(fr, st, "frame", "unchanged (for objects that existed at entry): "+h, goal, false, h, true)
 	}
 	for _, g := range sortedKeys(st.ghost) {
 		if ws.ghost[g] || strings.HasPrefix(g, "global:") {
